@@ -20,6 +20,8 @@ var table = map[string]func(*fw.Ctx){
 	"C05": checks.C05,
 	"C06": checks.C06,
 	"C07": checks.C07,
+	"C08": checks.C08,
+	"C09": checks.C09,
 	"C11": checks.C11,
 	"C12": checks.C12,
 	"C13": checks.C13,
